@@ -7,8 +7,359 @@ META = ("W-TYPES: result types, well-formedness and convertibility of duration/t
         ["g++ 12.2 type checker", "libstdc++ 12 <chrono> as oracle"])
 
 
+from analysis import astx, db as D
+from analysis.rules import sets as SP
+
+
+# ---- CAST: the four duration_cast kernels compute count * num / den in the common type, in that order -------------
+def _skel(e, leaves):
+    """arithmetic skeleton of an expression: ('*', a, b) / ('/', a, b) / leaf name / None; casts and constructions of a single
+    argument are transparent; `cast_of` records the type each leaf was cast to"""
+    if e is None:
+        return None
+    k = e.get("k")
+    if k == "paren":
+        return _skel(e.get("e"), leaves)
+    if k == "cast":
+        inner = _skel(e["e"], leaves)
+        if isinstance(inner, str):
+            leaves.setdefault(inner, []).append(e.get("ty") or "")
+        return inner
+    if k in ("construct", "initlist", "parenlist") and len(e.get("a", [])) == 1:
+        return _skel(e["a"][0], leaves)
+    if k == "bin" and e["op"] in ("*", "/", "+", "-", "%"):
+        return (e["op"], _skel(e["l"], leaves), _skel(e["r"], leaves))
+    if k == "call" and astx.callee(e)[0] == "count":
+        return "count"
+    txt = astx.show(e, 40).replace(" ", "")
+    if txt.endswith("::num"):
+        return "num"
+    if txt.endswith("::den"):
+        return "den"
+    if k == "ref":
+        return "var:" + e["n"]
+    return None
+
+
+def _inline_locals(f, e):
+    """substitute single-assignment locals by their initialisers (the kernels are straight-line)"""
+    env = {}
+    for st in astx.walk_stmts(f["body"]):
+        if st.get("k") == "decl":
+            for v in st["vars"]:
+                if "other" not in v and v.get("init") is not None:
+                    env[v["n"]] = v["init"]
+
+    def sub(x, depth=0):
+        if x is None or depth > 6:
+            return x
+        if x.get("k") == "ref" and x.get("d") == "local" and x["n"] in env:
+            return sub(env[x["n"]], depth + 1)
+        y = dict(x)
+        for key in ("e", "l", "r"):
+            if isinstance(y.get(key), dict):
+                y[key] = sub(y[key], depth + 1)
+        if isinstance(y.get("a"), list):
+            y["a"] = [sub(a, depth + 1) if isinstance(a, dict) else a for a in y["a"]]
+        return y
+    return sub(e)
+
+
+CAST_TABLE = {
+    ("false", "false"): ("/", ("*", "count", "num"), "den"),
+    ("true", "false"): ("/", "count", "den"),
+    ("false", "true"): ("*", "count", "num"),
+    ("true", "true"): "count",
+}
+
+
+def cast_rule(chk, db):
+    n = 0
+    for f in db.funcs:
+        rec = f.get("record") or ""
+        if "duration_cast_impl" not in rec or f["n"] != "cast" or f.get("body") is None:
+            continue
+        m = None
+        args = rec.split("<", 1)[1].rsplit(">", 1)[0].replace(" ", "").split(",") if "<" in rec else None
+        key = ("false", "false") if args is None else (args[-2], args[-1])
+        if key not in CAST_TABLE:
+            continue
+        n += 1
+        construct = "%s::cast" % rec
+        chk.instance("CAST")
+        rets = [st for st in astx.walk_stmts(f["body"]) if st.get("k") == "return" and st.get("e") is not None]
+        leaves = {}
+        sk = _skel(_inline_locals(f, rets[-1]["e"]), leaves) if len(rets) == 1 else None
+        want = CAST_TABLE[key]
+        ok = sk == want
+        msg = ""
+        if not ok:
+            msg = "computes %s where count%s%s is specified (multiplication before the truncating division)" % (
+                sk, " * num" if key[0] == "false" else "", " / den" if key[1] == "false" else "")
+        elif key != ("true", "true"):
+            wrong = [(lf, tys) for lf, tys in leaves.items() if lf in ("count", "num", "den") and not any(t.replace(" ", "") == "CR" for t in tys)]
+            for lf in ("count",) + (("num",) if key[0] == "false" else ()) + (("den",) if key[1] == "false" else ()):
+                if lf not in leaves:
+                    wrong.append((lf, []))
+            if wrong:
+                ok = False
+                msg = "operand `%s` is not converted to the common type CR before the arithmetic" % wrong[0][0]
+        chk.obligation("CAST", construct, ok)
+        if not ok:
+            chk.violation("CAST", construct, "cast-shape", "%s: %s" % (astx.loc(f), msg), {"where": astx.loc(f)})
+    if n < 4:
+        chk.analysis_broken("CAST: only %d duration_cast_impl kernels found (4 expected)" % n)
+    # the dispatcher selects the kernel from cf::num == 1 / cf::den == 1, in that order
+    ds = [f for f in db.by_q.get("etl::chrono::duration_cast", []) if f.get("body") is not None]
+    if not ds:
+        chk.analysis_broken("CAST: etl::chrono::duration_cast no longer exists")
+        return
+    f = ds[0]
+    chk.instance("CAST")
+    aliases = dict((a["n"], a.get("ty") or a.get("target") or "") for a in (f.get("aliases") or []))
+    src = " ".join(st.get("src", "") for st in astx.walk_stmts(f["body"]))
+    txt = " ".join([src] + list(aliases.values())).replace(" ", "")
+    import re
+    mm = re.search(r"duration_cast_impl<([^;]*?)>(?:;|::)", txt)
+    verdict, why = None, "the kernel selection is not a recognisable duration_cast_impl<To, cf, cr, A, B>"
+    if mm:
+        targs = mm.group(1).replace("(", "").replace(")", "").split(",")
+        if len(targs) >= 5:
+            def kind(t):
+                if re.fullmatch(r"\w+::num==1|1==\w+::num", t):
+                    return "num"
+                if re.fullmatch(r"\w+::den==1|1==\w+::den", t):
+                    return "den"
+                return None
+            ka, kb = kind(targs[-2]), kind(targs[-1])
+            if (ka, kb) == ("num", "den"):
+                verdict = True
+            elif ka is not None and kb is not None:
+                verdict, why = False, "the kernel is selected by <%s, %s>; the kernels are specialised on <NumIsOne, DenIsOne>" % (targs[-2], targs[-1])
+    if verdict and not re.search(r"ratio_divide<Period,typename\w+::period>", txt):
+        if re.search(r"ratio_divide<typename\w+::period,Period>", txt):
+            verdict, why = False, "the conversion factor is To::period / Period; specified: Period / To::period"
+        else:
+            verdict, why = None, "the conversion factor is not a recognisable ratio_divide"
+    chk.obligation("CAST", "etl::chrono::duration_cast (dispatch)", verdict)
+    if verdict is False:
+        chk.violation("CAST", "etl::chrono::duration_cast (dispatch)", "dispatch", "%s: %s" % (astx.loc(f), why), {"where": astx.loc(f)})
+    elif verdict is None:
+        chk.unknown_instance("CAST", "etl::chrono::duration_cast (dispatch)", why)
+
+
+# ---- ROUND: floor / ceil / round as decision tables over the orderings they distinguish ----------------------------
+def _ord_truth(c, a, b, o):
+    """truth of a comparison between locals a and b in the world a <o> b"""
+    c = astx.strip_casts(c)
+    if c is None or c.get("k") != "bin" or c["op"] not in ("<", ">", "<=", ">=", "==", "!="):
+        return None
+    l, r = astx.strip_casts(c["l"]), astx.strip_casts(c["r"])
+    if l is None or r is None or l.get("k") != "ref" or r.get("k") != "ref":
+        return None
+    if (l["n"], r["n"]) == (a, b):
+        oo = o
+    elif (l["n"], r["n"]) == (b, a):
+        oo = {"<": ">", "=": "=", ">": "<"}[o]
+    else:
+        return None
+    return oo in {"==": "=", "!=": "<>", "<": "<", ">": ">", "<=": "<=", ">=": ">="}[c["op"]]
+
+
+def _step(e, t):
+    """classify a returned duration: 't', 't+1', 't-1' (t a local name), else None"""
+    leaves = {}
+    sk = _skel(e, leaves)
+    if sk == "var:" + t:
+        return "t"
+    if isinstance(sk, tuple) and sk[0] in ("+", "-"):
+        l, r = sk[1], sk[2]
+        e0 = e
+        # the literal one: any cast/construct of the integer literal 1
+        def is_one(x):
+            return x is None
+        if l in ("count", "var:" + t):
+            ones = [x for x in astx.walk_expr(e) if x.get("k") == "int"]
+            if len(ones) == 1 and str(ones[0].get("v")) == "1":
+                return "t" + sk[0] + "1"
+    return None
+
+
+def round_rule(chk, db):
+    spec = {"floor": {"<": "t", "=": "t", ">": "t-1"}, "ceil": {"<": "t+1", "=": "t", ">": "t"}}
+    n = 0
+    for name, table in spec.items():
+        fs = [f for f in db.by_q.get("etl::chrono::" + name, []) if f.get("body") is not None and "duration<" in f["params"][0]["ty"]]
+        if not fs:
+            chk.analysis_broken("ROUND: etl::chrono::%s(duration) no longer exists" % name)
+            continue
+        f = fs[0]
+        d = f["params"][0]["n"]
+        tvars = [v["n"] for st in astx.walk_stmts(f["body"]) if st.get("k") == "decl" for v in st["vars"]
+                 if "other" not in v and v.get("init") is not None and any(astx.callee(c)[0] == "duration_cast" for c in SP.calls_in(v["init"]))]
+        construct = astx.sig(f)
+        chk.instance("ROUND")
+        n += 1
+        if len(tvars) != 1:
+            chk.obligation("ROUND", construct, None)
+            chk.unknown_instance("ROUND", construct, "no single local holds duration_cast<To>(d)")
+            continue
+        t = tvars[0]
+        got = {}
+        modelled = True
+        for o in "<=>":
+            for p in SP.paths(f["body"]):
+                feas = True
+                for ev in p:
+                    if ev[0] == "cond":
+                        tr = _ord_truth(ev[1], t, d, o)
+                        if tr is None:
+                            modelled = False
+                        elif tr != ev[2]:
+                            feas = False
+                    if ev[0] == "ret" and feas:
+                        got.setdefault(o, set()).add(_step(ev[1], t))
+        bad = [(o, sorted(map(str, got.get(o, set())))) for o in "<=>" if got.get(o, set()) != {table[o]}]
+        ok = (not bad) if modelled else None
+        chk.obligation("ROUND", construct, ok)
+        if modelled and bad:
+            o, g = bad[0]
+            chk.violation("ROUND", construct, "rounding-table", "%s: when duration_cast<To>(d) %s d, %s returns %s; specified: %s" % (
+                astx.loc(f), {"<": "<", "=": "==", ">": ">"}[o], name, "/".join(g) or "nothing", table[o]), {"where": astx.loc(f)})
+        elif not modelled:
+            chk.unknown_instance("ROUND", construct, "a test is not a comparison of the cast result with the argument")
+    # round: nearest, ties to even
+    fs = [f for f in db.by_q.get("etl::chrono::round", []) if f.get("body") is not None and "duration<" in f["params"][0]["ty"]]
+    if not fs:
+        chk.analysis_broken("ROUND: etl::chrono::round(duration) no longer exists")
+        return
+    f = fs[0]
+    construct = astx.sig(f)
+    chk.instance("ROUND")
+    env = {}
+    for st in astx.walk_stmts(f["body"]):
+        if st.get("k") == "decl":
+            for v in st["vars"]:
+                if "other" not in v and v.get("init") is not None:
+                    env[v["n"]] = v["init"]
+    d = f["params"][0]["n"]
+    low = [k for k, v in env.items() if any(astx.callee(c)[0] == "floor" for c in SP.calls_in(v))]
+    problems = []
+    if len(low) != 1:
+        chk.obligation("ROUND", construct, None)
+        chk.unknown_instance("ROUND", construct, "no single local holds floor<To>(d)")
+        return
+    low = low[0]
+
+    def role(name):
+        """'low' | 'high' (low + 1) | 'lowDiff' (d - low) | 'highDiff' (high - d)"""
+        if name == low:
+            return "low"
+        v = astx.strip_casts(env.get(name))
+        if v is None or v.get("k") != "bin":
+            return None
+        l, r = astx.strip_casts(v["l"]), astx.strip_casts(v["r"])
+        ln = l.get("n") if l is not None and l.get("k") == "ref" else None
+        rn = r.get("n") if r is not None and r.get("k") == "ref" else None
+        if v["op"] == "+" and ln == low and _skel(v["r"], {}) is None and [x.get("v") for x in astx.walk_expr(v["r"]) if x.get("k") == "int"] == ["1"]:
+            return "high"
+        if v["op"] == "-" and ln == d and rn is not None and role(rn) == "low":
+            return "lowDiff"
+        if v["op"] == "-" and rn == d and ln is not None and role(ln) == "high":
+            return "highDiff"
+        return None
+    roles = dict((k, role(k)) for k in env)
+    ld = [k for k, r in roles.items() if r == "lowDiff"]
+    hd = [k for k, r in roles.items() if r == "highDiff"]
+    if len(ld) != 1 or len(hd) != 1:
+        chk.obligation("ROUND", construct, None)
+        chk.unknown_instance("ROUND", construct, "the distances to the two neighbours are not recognisable locals")
+        return
+    want = {"<": "low", ">": "high"}
+    got = {}
+    parity = None
+    for o in "<=>":
+        for p in SP.paths(f["body"]):
+            feas = True
+            for ev in p:
+                if ev[0] == "cond":
+                    tr = _ord_truth(ev[1], ld[0], hd[0], o)
+                    if tr is None:
+                        feas = False
+                    elif tr != ev[2]:
+                        feas = False
+                if ev[0] == "ret" and feas:
+                    e = astx.strip_casts(ev[1])
+                    if e is not None and e.get("k") == "ref":
+                        got.setdefault(o, set()).add(roles.get(e["n"]))
+                    elif e is not None and e.get("k") == "cond":
+                        got.setdefault(o, set()).add("parity")
+                        parity = e
+                    else:
+                        got.setdefault(o, set()).add(None)
+    for o in "<>":
+        if got.get(o) != {want[o]}:
+            problems.append("when the distance to the lower neighbour is %s the distance to the upper one, round returns %s (specified: %s)" % (
+                "less than" if o == "<" else "greater than", "/".join(sorted(map(str, got.get(o, set())))) or "nothing", want[o]))
+    if got.get("=") != {"parity"} or parity is None:
+        problems.append("a tie is not resolved by the parity of the lower neighbour")
+    else:
+        # abstract evaluation of the parity test over sign x parity of low.count()
+        def aval(x, cls):
+            x = astx.strip_casts(x)
+            if x is None:
+                return None
+            if x.get("k") == "paren":
+                return aval(x.get("e"), cls)
+            if x.get("k") == "int":
+                return int(x["v"])
+            if x.get("k") == "call" and astx.callee(x)[0] == "count":
+                b = astx.strip_casts(astx.callee(x)[2])
+                if b is not None and b.get("k") == "ref" and roles.get(b["n"]) == "low":
+                    return cls
+                return None
+            if x.get("k") == "bin":
+                a, b = aval(x["l"], cls), aval(x["r"], cls)
+                if a is None or b is None:
+                    return None
+                sign, odd = (a if isinstance(a, tuple) else (None, None))
+                if isinstance(a, tuple) and isinstance(b, int):
+                    if x["op"] == "&" and b == 1:
+                        return 1 if odd else 0
+                    if x["op"] == "%" and b == 2:
+                        return (sign if odd else 0)
+                    return None
+                if isinstance(a, int) and isinstance(b, int):
+                    return {"==": int(a == b), "!=": int(a != b), "<": int(a < b), ">": int(a > b), "<=": int(a <= b), ">=": int(a >= b)}.get(x["op"])
+            if x.get("k") == "un" and x["op"] == "!":
+                a = aval(x["e"], cls)
+                return None if a is None or isinstance(a, tuple) else int(not a)
+            return None
+        for sign in (1, -1):
+            for odd in (True, False):
+                v = aval(parity["c"], (sign, odd))
+                if v is None or isinstance(v, tuple):
+                    problems.append("the parity test `%s` is not a modelled form" % astx.show(parity["c"], 40))
+                    break
+                tn = astx.strip_casts(parity["t"]) if v else astx.strip_casts(parity["f"])
+                chosen = roles.get(tn.get("n")) if tn is not None and tn.get("k") == "ref" else None
+                need = "high" if odd else "low"
+                if chosen != need:
+                    problems.append("on a tie with a %s %s lower neighbour round returns %s (ties go to the even neighbour: %s)" % (
+                        "negative" if sign < 0 else "positive", "odd" if odd else "even", chosen, need))
+            else:
+                continue
+            break
+    chk.obligation("ROUND", construct, not problems)
+    for m in problems[:2]:
+        chk.violation("ROUND", construct, "rounding-table", "%s: %s" % (astx.loc(f), m), {"where": astx.loc(f)})
+
+
 def run(chk, tier):
     quick = tier == "quick"
+    db = D.load("checks")
+    cast_rule(chk, db)
+    round_rule(chk, db)
     tus, info = gen.generate(quick)
     res = wit.compile_many(tus, compiler="g++", jobs=16)
     total = 0
